@@ -14,6 +14,13 @@ def splitT : List String → List (List String)
       | [] => [[a]]
       | c :: cs => (a :: c) :: cs
 
+/-- `parse_command_line`: the formula command is the first chunk without the program name; the other
+chunks are the transformation commands, in order -/
+def parseCommandLine (argv : List String) : List String × List (List String) :=
+  match splitT argv with
+  | [] => ([], [])
+  | c :: cs => (c.drop 1, cs)
+
 def joinT : List (List String) → List String
   | [] => []
   | [c] => c
